@@ -3,9 +3,9 @@
    Rust: structure/locator.rs, structure/guid.rs, messages/protocol_version.rs, messages/vendor_id.rs,
          discovery/builtin_endpoint.rs, discovery/spdp_participant_data.rs.
 
-   Not modelled (feature "security" only): identity_token, permissions_token, property,
-   security_info — the model is the deserialiser with those four parameters absent / the
-   serialiser with those four fields None. *)
+   Not modelled (feature "security" only): identity_token, permissions_token, property — the model
+   is the deserialiser with those three parameters absent / the serialiser with those three fields
+   None.  security_info (security/types.rs ParticipantSecurityInfo, EndpointSecurityInfo) is modelled. *)
 From Coq Require Import List ZArith Lia Bool.
 From RD Require Import C15.Prim C15.PL C15.Qos.
 Import ListNotations.
@@ -129,6 +129,26 @@ Proof. intros b rest _. apply dec_enc_bool. Qed.
 Lemma rt_string e : RT (enc_string e) (dec_string e) string_ok.
 Proof. intros s rest H. now apply dec_enc_string. Qed.
 
+(* ParticipantSecurityInfo / EndpointSecurityInfo { attributes mask, plugin attributes mask }: two
+   u32.  The first is a BitFlags<..>: BitFlags::try_from rejects any bit outside the declared flags
+   (IsValid 0x8000_0000 plus 3 resp. 7 low bits); the plugin mask is any u32. *)
+Definition secinfo := (Z * Z)%type.
+Notation PARTICIPANT_SEC_BITS := 2147483655 (only parsing).   (* 0x8000_0007 *)
+Notation ENDPOINT_SEC_BITS := 2147483775 (only parsing).      (* 0x8000_007F *)
+Definition enc_secinfo (e : endian) (s : secinfo) : list Z := enc_u32 e (fst s) ++ enc_u32 e (snd s).
+Definition dec_secinfo (allowed : Z) (e : endian) : reader secinfo :=
+  m <- dec_u32 e ;; if Z.land m allowed =? m then (p <- dec_u32 e ;; ret (m, p)) else fail.
+Definition secinfo_ok (allowed : Z) (s : secinfo) : Prop :=
+  u32_ok (fst s) /\ Z.land (fst s) allowed = fst s /\ u32_ok (snd s).
+Lemma rt_secinfo allowed e : RT (enc_secinfo e) (dec_secinfo allowed e) (secinfo_ok allowed).
+Proof.
+  intros [m p] rest (H1 & H2 & H3). unfold dec_secinfo, enc_secinfo, bind. cbn [fst snd] in *.
+  rewrite <- app_assoc. rewrite dec_enc_u32 by exact H1. rewrite H2, Z.eqb_refl.
+  rewrite dec_enc_u32 by exact H3. reflexivity.
+Qed.
+Lemma enc_secinfo_len e s : len (enc_secinfo e s) = 8.
+Proof. unfold enc_secinfo. now rewrite len_app, !enc_u32_len. Qed.
+
 (* ------------------------------------------------------------------------------------------ *)
 (* SpdpDiscoveredParticipantData, fields in declaration order (updated_time is not serialised) *)
 Record spdp := {
@@ -144,7 +164,8 @@ Record spdp := {
   sp_lease_duration : option duration;
   sp_manual_liveliness_count : Z;
   sp_builtin_endpoint_qos : option Z;
-  sp_entity_name : option (list Z) }.
+  sp_entity_name : option (list Z);
+  sp_security_info : option secinfo }.
 
 Definition params_of (pid : Z) (vs : list (list Z)) : list param := map (fun v => (pid, v)) vs.
 
@@ -162,7 +183,9 @@ Definition spdp_to_params (e : endian) (v : spdp) : list param :=
   opt_param PID_PARTICIPANT_LEASE_DURATION (enc_duration e) (sp_lease_duration v) ++
   [(PID_PARTICIPANT_MANUAL_LIVELINESS_COUNT, enc_i32 e (sp_manual_liveliness_count v))] ++
   opt_param PID_BUILTIN_ENDPOINT_QOS (enc_u32 e) (sp_builtin_endpoint_qos v) ++
-  opt_param PID_ENTITY_NAME (enc_string e) (sp_entity_name v).
+  opt_param PID_ENTITY_NAME (enc_string e) (sp_entity_name v) ++
+  (* identity_token, permissions_token, property: None *)
+  opt_param PID_PARTICIPANT_SECURITY_INFO (enc_secinfo e) (sp_security_info v).
 
 Definition unwrap_or {A} (o : option A) (d : A) : A := match o with Some a => a | None => d end.
 
@@ -183,15 +206,18 @@ Definition spdp_from_map (e : endian) (m : plmap) : option spdp :=
   available_builtin_endpoints <-? get_first (dec_u32 e) m PID_BUILTIN_ENDPOINT_SET ;;
   builtin_endpoint_qos <-? get_option (dec_u32 e) m PID_BUILTIN_ENDPOINT_QOS ;;
   entity_name <-? get_option (dec_string e) m PID_ENTITY_NAME ;;
+  security_info <-? get_option (dec_secinfo PARTICIPANT_SEC_BITS e) m PID_PARTICIPANT_SECURITY_INFO ;;
   Some {| sp_protocol_version := protocol_version; sp_vendor_id := vendor_id;
           sp_expects_inline_qos := expects_inline_qos; sp_participant_guid := participant_guid;
           sp_metatraffic_unicast_locators := mu; sp_metatraffic_multicast_locators := mm;
           sp_default_unicast_locators := du; sp_default_multicast_locators := dm;
           sp_available_builtin_endpoints := available_builtin_endpoints;
           sp_lease_duration := lease_duration; sp_manual_liveliness_count := manual_liveliness_count;
-          sp_builtin_endpoint_qos := builtin_endpoint_qos; sp_entity_name := entity_name |}.
+          sp_builtin_endpoint_qos := builtin_endpoint_qos; sp_entity_name := entity_name;
+          sp_security_info := security_info |}.
 
-(* ids the deserialiser looks at (the last four only in the security build) *)
+(* ids the deserialiser looks at (the last four only in the security build; 4097, 4098, 89 are
+   not modelled and never count as foreign) *)
 Definition spdp_pids : list Z := [21; 22; 67; 80; 50; 51; 49; 72; 2; 52; 88; 119; 98; 4097; 4098; 89; 4101].
 
 Definition encode_spdp (e : endian) (v : spdp) : list Z := enc_pl e (spdp_to_params e v).
@@ -212,7 +238,8 @@ Definition spdp_ok (v : spdp) : Prop :=
   oall duration_ok (sp_lease_duration v) /\
   i32_ok (sp_manual_liveliness_count v) /\
   oall u32_ok (sp_builtin_endpoint_qos v) /\
-  oall pstring_ok (sp_entity_name v).
+  oall pstring_ok (sp_entity_name v) /\
+  oall (secinfo_ok PARTICIPANT_SEC_BITS) (sp_security_info v).
 
 (* ------------------------------------------------------------------------------------------ *)
 Lemma lookup_params_of_eq pid vs : lookup_all (params_of pid vs) pid = vs.
@@ -234,7 +261,7 @@ Proof. destruct o; exact I. Qed.
 Lemma spdp_from_map_rt e v m :
   spdp_ok v -> shows m (spdp_to_params e v) spdp_pids -> spdp_from_map e m = Some v.
 Proof.
-  intros (Hg & Hmu & Hmm & Hdu & Hdm & Hset & Hlease & Hcnt & Hbeq & Hname) S.
+  intros (Hg & Hmu & Hmm & Hdu & Hdm & Hset & Hlease & Hcnt & Hbeq & Hname & Hsec) S.
   unfold spdp_from_map.
   rewrite (get_first_rt enc_2 dec_2 _ m _ (sp_protocol_version v) rt_2 I)
     by (rewrite S by (cbn; tauto); unfold spdp_to_params; lk).
@@ -263,6 +290,8 @@ Proof.
   rewrite (get_option_rt (enc_string e) _ string_ok m _ (sp_entity_name v) (rt_string e))
     by (try (rewrite S by (cbn; tauto); unfold spdp_to_params; lk);
         destruct (sp_entity_name v); cbn in *; auto using pstring_string_ok).
+  rewrite (get_option_rt (enc_secinfo e) _ _ m _ (sp_security_info v) (rt_secinfo _ e) Hsec)
+    by (rewrite S by (cbn; tauto); unfold spdp_to_params; lk).
   cbn [obind unwrap_or]. destruct v; reflexivity.
 Qed.
 
@@ -271,7 +300,7 @@ Lemma spdp_from_map_ext e m m' :
 Proof.
   intros H. unfold spdp_from_map, get_option, get_first, get_all.
   rewrite (H 21), (H 22), (H 67), (H 80), (H 50), (H 51), (H 49), (H 72), (H 2), (H 52), (H 88),
-          (H 119), (H 98) by (cbn; tauto).
+          (H 119), (H 98), (H 4101) by (cbn; tauto).
   reflexivity.
 Qed.
 
@@ -300,7 +329,7 @@ Proof. intros H1 H2 H3 H4. destruct o; cbn in *; constructor; [apply param_ok_in
 
 Lemma spdp_params_ok e v : spdp_ok v -> Forall param_ok (spdp_to_params e v).
 Proof.
-  intros (Hg & Hmu & Hmm & Hdu & Hdm & Hset & Hlease & Hcnt & Hbeq & Hname).
+  intros (Hg & Hmu & Hmm & Hdu & Hdm & Hset & Hlease & Hcnt & Hbeq & Hname & Hsec).
   unfold spdp_to_params. repeat (apply Forall_app; split).
   - apply one_param_ok; [unfold u16_ok; lia | discriminate | cbn; lia].
   - apply one_param_ok; [unfold u16_ok; lia | discriminate | cbn; lia].
@@ -315,6 +344,7 @@ Proof.
   - apply one_param_ok; [unfold u16_ok; lia | discriminate | rewrite enc_i32_len; lia].
   - apply opt_param_ok; [unfold u16_ok; lia | discriminate | intros a; rewrite enc_u32_len; lia].
   - apply (opt_param_ok' _ _ pstring_ok); [unfold u16_ok; lia | discriminate | apply enc_string_small | exact Hname].
+  - apply opt_param_ok; [unfold u16_ok; lia | discriminate | intros a; rewrite enc_secinfo_len; lia].
 Qed.
 
 Theorem roundtrip_spdp e v : spdp_ok v -> decode_spdp e (encode_spdp e v) = Ok v.
